@@ -114,7 +114,7 @@ package core
 // so an end-of-file fault is reported in the file it is in, with that file's include chain.
 //@ ghostvar eofPending int
 //@ func (*JApiCore).processEOF
-//@   tag C06 C01 C02
+//@   tag C06 C01 C02 C08
 //@   ghostensures eofPending == 0
 //@   letpost eanc(k int) *directive.Directive : eanc(0) == core.currentContextDirective ; forall k :: k >= 0 ==> eanc(k+1) == (eanc(k) == nil ? nil : eanc(k).Parent)
 //@   requires CoreScanInv(core) && 1 <= core.scanner.curIndex
